@@ -12,6 +12,7 @@ import sys
 import time
 
 VERIF = os.path.dirname(os.path.dirname(os.path.abspath(__file__)))
+OUT = os.environ.get("VERIF_OUT_DIR", VERIF)  # evidence/ and replays/ go here (the self-test redirects them)
 REPO = os.environ.get("PYSCSI_REPO", "/repo")
 REPLAY_PY = "/venv/bin/python" if os.path.exists("/venv/bin/python") else sys.executable
 
@@ -80,7 +81,7 @@ def _job(unit_name, case, prop, tier, opts):
 
 
 def write_replay(prop, ob, res, extra=None):
-    d = os.path.join(VERIF, "replays", prop)
+    d = os.path.join(OUT, "replays", prop)
     os.makedirs(d, exist_ok=True)
     h = hashlib.sha1(ob["name"].encode()).hexdigest()[:12]
     path = os.path.join(d, h + ".json")
@@ -109,7 +110,7 @@ def run_property(prop, tier="quick", seed=0, unit_filter=None, nproc=None, extra
 
     import shutil
 
-    shutil.rmtree(os.path.join(VERIF, "replays", prop), ignore_errors=True)
+    shutil.rmtree(os.path.join(OUT, "replays", prop), ignore_errors=True)
     registry = load_contracts()
     units = [u for u in registry.values() if prop in u.properties and (unit_filter is None or fnmatch.fnmatch(u.name, unit_filter))]
     jobs = []
@@ -305,8 +306,8 @@ def run_property(prop, tier="quick", seed=0, unit_filter=None, nproc=None, extra
         ev["coverage"]["explanation"] = explanation
     if extra_evidence:
         ev["coverage"].update(extra_evidence)
-    os.makedirs(os.path.join(VERIF, "evidence"), exist_ok=True)
-    with open(os.path.join(VERIF, "evidence", prop + ".json"), "w") as f:
+    os.makedirs(os.path.join(OUT, "evidence"), exist_ok=True)
+    with open(os.path.join(OUT, "evidence", prop + ".json"), "w") as f:
         json.dump(ev, f, indent=1, default=str)
     if not quiet:
         print("%s tier=%s: %d obligations, %d discharged (%s), %d paths, %d cases, solver %.1fs, wall %.1fs, canaries %d/%d, witnesses %d -> exit %d" % (
